@@ -876,6 +876,12 @@ def run_fixed(ctx):
         post = rng.choice([" ", "\n", ";", ""])
         # the prefix program ends with ';' so that sutoton::convert's trim_end cannot cut into a final `# ` comment
         ends.append((pre + sep + word + post + junk, pre + sep + ";"))
+    # definitions in the ignored tail: the pre-scan for FUNCTION stops at the word End / END like the lexer does - a reserved
+    # name or a redefinition must leave no trace (an unknown word BEFORE End is left out: its error entry quotes the text that follows)
+    for word in ("End", "END"):
+        for pre, tail in [("c d", "FUNCTION PRINT(){}"), ("c d", "FUNCTION TR(){ c }"), ("FUNCTION Foo(){ c }\nFoo d", "old version:\nFUNCTION Foo(){ e }\n"),
+                          ("c", "FUNCTION Int(){}")]:
+            ends.append((pre + "\n" + word + "\n" + tail, pre + "\n;"))
     lines = []
     for a, b in ends:
         for k in ("compile", "lex"):
